@@ -17,7 +17,7 @@
 (*          *_L(cfg, opts, lg)             clause on a complete log dump    *)
 (* Each returns a sequence of <<clause name, truth value>>.                *)
 (***************************************************************************)
-EXTENDS PdesyApi
+EXTENDS PdesyReport
 
 AllTrue(cl) == \A i \in DOMAIN cl: cl[i][2]
 Started(s) == s \in {"WORKING", "FINISHED"}
@@ -528,6 +528,56 @@ C16_H(cfg, run, pre) ==
      <<"C16.H.params-workplaces", run.obs.read_ok => run.obs.params_after.wps = run.obs.params_before.wps>>,
      <<"C16.H.params-components", run.obs.read_ok => run.obs.params_after.comps = run.obs.params_before.comps>>,
      <<"C16.H.params-project", run.obs.read_ok => run.obs.params_after.project = run.obs.params_before.project>> >>
+
+\* =========================== C19 ===========================================
+\* run = [fn, cls, log | logs, m2, unit, times, state, out...]
+C19_States(cls) == IF cls \in {"task", "component"} THEN <<"READY", "WORKING">> ELSE <<"FREE", "WORKING", "ABSENCE">>
+C19_F(run) ==
+  CASE run.fn = "gantt" ->
+         << <<"C19.F.returns-gantt-" \o run.cls, run.ret = "ok">>,
+            <<"C19.F.gantt-" \o run.cls, run.ret = "ok" =>
+                 /\ Len(run.out) = Len(C19_States(run.cls))
+                 /\ \A i \in DOMAIN run.out: run.out[i] = Intervals(run.log, C19_States(run.cls)[i], run.m2)>> >>
+    [] run.fn = "rows" ->
+         << <<"C19.F.returns-rows-" \o run.cls, run.ret = "ok">>,
+            <<"C19.F.rows-" \o run.cls, run.ret = "ok" =>
+                 \A i \in DOMAIN C19_States(run.cls):
+                    LET s == C19_States(run.cls)[i]
+                        shown == s # (IF run.cls \in {"task", "component"} THEN "READY" ELSE "FREE") \/ run.viewReady
+                        got == SelectSeq(run.out, LAMBDA r: r[1] = s)
+                    IN got = (IF shown THEN [n \in DOMAIN Rows(run.log, s, run.m2, run.unit) |->
+                                                    <<s, Rows(run.log, s, run.m2, run.unit)[n][1],
+                                                      Rows(run.log, s, run.m2, run.unit)[n][2]>>]
+                              ELSE <<>>)>> >>
+    [] run.fn = "extract" ->
+         << <<"C19.F.returns-extract-" \o run.cls, run.ret = "ok">>,
+            <<"C19.F.extract-" \o run.cls, run.ret = "ok" =>
+                 ToSet(run.out) = Extract(run.logs, run.state, run.times) /\ Len(run.out) = Cardinality(ToSet(run.out))>> >>
+    [] run.fn = "lastdate" ->
+         << <<"C19.F.lastdate", run.ret = "ok" /\ run.out + (run.time - 1) * run.unit = run.last>> >>
+
+\* =========================== C20 ===========================================
+\* run "subconfig": obs = [warned, unchanged, D, unitS, childTime, childStatus, childAbs, su, pu]
+C20_Config(run) ==
+  LET o == run.obs
+      within == Cardinality({ a \in ToSet(o.childAbs) : a < o.childTime })
+  IN << <<"C20.H.returns", run.ret = "ok">>,
+        <<"C20.H.duration", run.ret = "ok" /\ o.childStatus = "SUCCESS" =>
+             /\ ~o.unchanged
+             /\ o.D = (IF run.args.flag THEN o.childTime - within ELSE o.childTime)
+             /\ o.unitS = o.su>>,
+        <<"C20.H.refused", run.ret = "ok" /\ o.childStatus # "SUCCESS" => o.warned /\ o.unchanged>> >>
+\* the parent run: lg = final logs, t = the sub-project task, n = ceil(D * su / pu)
+C20_Parent(cfg, opts, lg, t, n) ==
+  LET W == { k \in 1..Len(lg.ts[t]) : lg.ts[t][k] = "WORKING" }
+      shownReadyInAbsence == { k \in 1..Len(lg.ts[t]) : lg.ts[t][k] = "READY" /\ Mem(lg.absL, k - 1) }
+  IN << <<"C20.L.length", lg.status = "SUCCESS" => Cardinality(W) = n>>,
+        <<"C20.L.consecutive", W # {} =>
+             \A k \in Min(W)..Max(W): k \in W \/ k \in shownReadyInAbsence>>,
+        <<"C20.L.no-workers", \A k \in 1..Len(lg.aw[t]): lg.aw[t][k] = <<>> >>,
+        \* starts as soon as its dependencies allow: never shown READY at a working step
+        <<"C20.L.prompt", cfg.tasks[t].comp = 0 =>
+             \A k \in 1..Len(lg.ts[t]): lg.ts[t][k] = "READY" => Mem(lg.absL, k - 1)>> >>
 
 \* =========================== C12 ===========================================
 C12_S(cfg, opts, ph, s) ==
